@@ -445,6 +445,15 @@ class Facts:
                 return self.body(p)
         raise AnchorMissing("no impl of %s::%s for %s" % (trait, method, self_adt))
 
+    def derived_bodies(self):
+        if getattr(self, "_derived", None) is None:
+            d = set()
+            for i in self.impls:
+                if i.get("derived"):
+                    d.update(i["items"].values())
+            self._derived = d
+        return self._derived
+
     # -- call graph ---------------------------------------------------------------------
     def callees(self, body, include_closures=True):
         """workspace-local bodies called (resolved) from `body`, incl. closures it creates"""
